@@ -116,6 +116,12 @@ pub fn dedent(s: &str) -> String {
     // We then continue looking through the remaining lines to
     // possibly shorten the prefix.
     for line in &mut lines {
+        // Lines with only whitespace are emitted as empty lines, they
+        // must not influence the prefix.
+        if line.chars().all(char::is_whitespace) {
+            continue;
+        }
+
         let mut whitespace_idx = line.len();
         for ((idx, a), b) in line.char_indices().zip(prefix.chars()) {
             if a != b {
